@@ -700,7 +700,14 @@ fn check_c12(e: &Exec, files: &BTreeMap<String, Vec<u8>>, keys: &[u8], out: &mut
             }
             let ka: Vec<_> = da.keydir.iter().map(|x| (&x.0, x.1, x.2, x.3)).collect();
             let kb: Vec<_> = db.keydir.iter().map(|x| (&x.0, x.1, x.2, x.3)).collect();
-            if ka != kb {
+            if ka != kb && ka.len() + kb.len() > 40 {
+                // (large stores: the entries only one of the two has, the first few of them)
+                let sa: std::collections::BTreeSet<_> = ka.iter().collect();
+                let sb: std::collections::BTreeSet<_> = kb.iter().collect();
+                let only_a: Vec<_> = sa.difference(&sb).take(3).map(|x| (hex(x.0), x.1, x.2, x.3)).collect();
+                let only_b: Vec<_> = sb.difference(&sa).take(3).map(|x| (hex(x.0), x.1, x.2, x.3)).collect();
+                out.push(("C12:hint-vs-scan-index-differs".into(), format!("{} entries with hints, {} without; only with hints (first 3): {:?}; only without: {:?}", ka.len(), kb.len(), only_a, only_b), Some(step)));
+            } else if ka != kb {
                 out.push(("C12:hint-vs-scan-index-differs".into(), format!("with hints {:?}, without {:?}", da.keydir.iter().map(|x| (hex(&x.0), x.1, x.2, x.3)).collect::<Vec<_>>(), db.keydir.iter().map(|x| (hex(&x.0), x.1, x.2, x.3)).collect::<Vec<_>>()), Some(step)));
             }
         }
@@ -1259,6 +1266,16 @@ pub fn plan(prop: &str, tier: Tier, seeds: &[u64]) -> Vec<Sweep> {
         }
         sweeps.push(Sweep { name: "bulk".into(), alphabet: vec![], depth: 0, cfgs, oracles, keys: vec![NEVER_KEY], trailing_reopens: 0, preload: vec![], words });
     };
+    // More than 2^20 entries in ONE hint file / one merge pass / one start-up scan (a single word,
+    // a worker is busy with it for half a minute)
+    let mega = |sweeps: &mut Vec<Sweep>, oracles: Oracles| {
+        let mut words = vec![vec![Op::Fill((1 << 20) + 2, 1), Op::Merge, Op::Reopen]];
+        if tier == Tier::Thorough {
+            words.push(vec![Op::Fill((2 << 20) + 3, 1), Op::Merge, Op::Reopen]);
+        }
+        let cfgs = vec![Cfg { mfs: MFS_BIG, thr: Thr::All, cache: 1, conc: 1, seed: seeds[0], sync_always: false, clock: 0 }];
+        sweeps.push(Sweep { name: "mega".into(), alphabet: vec![], depth: 0, cfgs, oracles, keys: vec![NEVER_KEY], trailing_reopens: 0, preload: vec![], words });
+    };
     // Non-initial states: the store is first filled and fully merged under ALL thresholds (its data
     // now sits in hinted merge outputs), then re-opened with the thresholds under test. Two merges
     // with DIFFERENT selections are far beyond the word depth otherwise.
@@ -1308,6 +1325,7 @@ pub fn plan(prop: &str, tier: Tier, seeds: &[u64]) -> Vec<Sweep> {
             sweeps.push(Sweep { name: "many-files-from-id-8".into(), alphabet: vec![SET_A1, SET_A22, SET_B1, DEL_A, DEL_B, Op::Reopen], depth: tier.pick(5, 6), cfgs: core_grid(&seeds[..1], &[Thr::None], &[0]), oracles: o, keys: main_keys.clone(), trailing_reopens: 2, preload: vec![Op::Reopen; 8], words: vec![] });
             scale(&mut sweeps, o);
             bulk(&mut sweeps, Oracles { kv: true, ..Default::default() });
+            mega(&mut sweeps, Oracles { kv: true, ..Default::default() });
             // histories whose data files include merge outputs (and their hint files)
             sweeps.push(Sweep { name: "with-merges".into(), alphabet: vec![SET_A1, SET_A22, SET_B1, DEL_A, Op::Merge, Op::Reopen], depth: tier.pick(5, 6), cfgs: core_grid(&seeds[..1], &[Thr::All, Thr::Dead, Thr::Size27], &[0, 60]), oracles: o, keys: main_keys.clone(), trailing_reopens: 2, preload: vec![], words: vec![] });
             sweeps.push(Sweep { name: "clock".into(), alphabet: vec![SET_A1, SET_A22, SET_B1, DEL_A, DEL_B, Op::Reopen], depth: tier.pick(4, 6), cfgs: with_clocks(core_grid(&seeds[..1], &[Thr::None], &mfss)), oracles: o, keys: main_keys.clone(), trailing_reopens: 2, preload: vec![], words: vec![] });
@@ -1338,6 +1356,7 @@ pub fn plan(prop: &str, tier: Tier, seeds: &[u64]) -> Vec<Sweep> {
             after_merge(&mut sweeps, tier.pick(3, 4), o);
             scale(&mut sweeps, o);
             bulk(&mut sweeps, o);
+            mega(&mut sweeps, o);
             sweeps.push(Sweep { name: "clock".into(), alphabet: full.clone(), depth: tier.pick(3, 4), cfgs: with_clocks(core_grid(&seeds[..1], &[Thr::All, Thr::Dead, Thr::Size27], &[0, MFS_BIG])), oracles: o, keys: main_keys.clone(), trailing_reopens: 0, preload: vec![], words: vec![] });
             // key and value SHAPES (empty, binary, 300-byte keys; empty, CR/LF/NUL, 9 000- and 70 000-byte values) through a merge
             sweeps.push(Sweep { name: "wide".into(), alphabet: wide_ops(true, false), depth: tier.pick(2, 3), cfgs: core_grid(&seeds[..1], &[Thr::All, Thr::Dead], &[0, MFS_BIG]), oracles: o, keys: wide_keys.clone(), trailing_reopens: 0, preload: vec![], words: vec![] });
